@@ -109,3 +109,12 @@ CASES += [
     {"name": "composite bath silently collapsed to its first component (the repaired defect)", "kind": "mutant", "rule": "C16-J", "edits": [
         ("quantarhei/qm/liouvillespace/heom.py", "            if len(cc.params) != 1:\n                raise Exception(\"HEOM is implemented for baths with a single\"\n                                +\" component; bath \"+str(ii)+\" has \"\n                                +str(len(cc.params)))\n", "", 1)]},
 ]
+
+_DME = "quantarhei/qm/propagators/dmevolution.py"
+_RWA_OLD = ("            for i, t in enumerate(self.TimeAxis.data):\n                # evolution operator\n"
+            "                Ut = numpy.diag(numpy.exp(-sgn*1j*HOmega*t))\n")
+CASES += [
+    {"name": "frame left at times counted from the start of the axis (seeded changes of rounds 5 and 6)", "kind": "mutant", "rule": "C16-K", "edits": [
+        (_DME, _RWA_OLD, "            for i in range(self.TimeAxis.length):\n                t = i*self.TimeAxis.step\n                # evolution operator\n"
+                         "                Ut = numpy.diag(numpy.exp(-sgn*1j*HOmega*t))\n", 1)]},
+]
